@@ -347,8 +347,65 @@ def screen_parallel(ctx, stats, nontriv, n, budget):
     return sorted(bad)
 
 
+def clone_guard_expressions(ctx, n):
+    """machines whose guards are boolean expressions over names provided by the machine, the model and listeners —
+    some attached late — are deep-copied; original and copy, given the same values, must decide every event alike
+    (direct statement of C17; D29 lived here)"""
+    import random
+    import warnings
+    import expr_gen as G
+    import expr_run as R
+    from statemachine.exceptions import TransitionNotAllowed
+    done = bad = 0
+    i = 0
+    while done < n and i < 30 * n:
+        scn = G.gen_scenario(random.Random(f"{ctx.seed}:C17expr:{i}"), f"C17expr{i}", p_malformed=0.0, allow_async=False)
+        i += 1
+        if not scn.get("late") and i % 3:
+            continue
+        lay = R.Layout(scn)
+        with warnings.catch_warnings():
+            warnings.simplefilter("ignore")
+            try:
+                sm, objs, values = R.build_machine(scn, lay)
+            except Exception:
+                continue
+            memo = {}
+            try:
+                clone = copy.deepcopy(sm, memo)
+            except Exception as e:
+                rp = ctx.write_replay(f"clone_expr_{i}.json", "# deepcopy failed: " + repr(e) + "\n" + G.dump(scn) + "\n")
+                ctx.violation(rp, f"deepcopy of a machine with guard expressions failed: {type(e).__name__}")
+                bad += 1
+                continue
+            objs2 = {p: (clone if p == "machine" else memo.get(id(o), o)) for p, o in objs.items()}
+            objs2["machine"] = clone
+            done += 1
+            for k, rho in enumerate(scn["rounds"]):
+                outs = []
+                for m, ob in ((sm, objs), (clone, objs2)):
+                    R.set_values(lay, ob, values, rho)
+                    try:
+                        m.send("go")
+                        out = "fired"
+                        m.send("back")
+                    except TransitionNotAllowed:
+                        out = "notfired"
+                    except Exception as e:  # noqa: BLE001
+                        out = "raised:" + type(e).__name__
+                    outs.append(out)
+                if outs[0] != outs[1] and bad < 3:
+                    bad += 1
+                    rp = ctx.write_replay(f"clone_expr_{i}.json",
+                                          f"# C17: original {outs[0]}, deep copy {outs[1]} on event {k} (rho={rho})\n" + G.dump(scn) + "\n")
+                    ctx.violation(rp, f"guard expressions: original {outs[0]}, copy {outs[1]} (late listeners {scn.get('late')})")
+                    break
+    ctx.coverage["clone_guard_expression_machines"] = done
+
+
 def run(ctx):
     lean_obligations(ctx)
+    clone_guard_expressions(ctx, 150 if ctx.tier == "quick" else 3000)
     ctx.coverage["rule"] = RULE
     ctx.assumptions += [
         "clones are taken between operations (machine at rest), never from inside a callback",
